@@ -26,8 +26,8 @@ Inductive instr :=
 | ADD16 (p : rp) | ADC16 (p : rp) | SBC16 (p : rp)
 | DAA | CPL | NEG | CCF | SCF | RLCA | RRCA | RLA | RRA | RLD | RRD
 | ROT (o : rot) (d : opnd) | BIT (b : Z) (d : opnd) | RES (b : Z) (d : opnd) | SET (b : Z) (d : opnd)
-| JP | JP_cc (c : Z) | JR | JR_cc (c : Z) | DJNZ | JP_HL
-| CALL | CALL_cc (c : Z) | RET | RET_cc (c : Z) | RETI | RETN | RST (t : Z)
+| JP | JP_cc (c : cc) | JR | JR_cc (c : cc) | DJNZ | JP_HL
+| CALL | CALL_cc (c : cc) | RET | RET_cc (c : cc) | RETI | RETN | RST (t : Z)
 | IN_A_n | OUT_n_A | IN_r_C (r : r8) | OUT_C_r (r : r8)
 | BLOCK (k : blk) (dec rep : bool)
 | PREFIX_CB | PREFIX_ED | PREFIX_DD | PREFIX_FD
@@ -43,6 +43,9 @@ Definition alu_tab (y : Z) : alu :=
 Definition rot_tab (y : Z) : rot :=
   match y with 0 => RLC | 1 => RRC | 2 => RL | 3 => RR | 4 => SLA | 5 => SRA | 6 => SLL | _ => SRL end.
 
+Definition cc_tab (y : Z) : cc :=
+  match y with 0 => NZ | 1 => Z_ | 2 => NC | 3 => C_ | 4 => PO | 5 => PE | 6 => P_ | _ => M_ end.
+
 Definition fx (c : Z) := c / 64.
 Definition fy (c : Z) := (c / 8) mod 8.
 Definition fz (c : Z) := c mod 8.
@@ -55,7 +58,7 @@ Definition decode_main (c : Z) : instr :=
   match fx c with
   | 0 =>
     match z with
-    | 0 => match y with 0 => NOP | 1 => EX_AF | 2 => DJNZ | 3 => JR | _ => JR_cc (y - 4) end
+    | 0 => match y with 0 => NOP | 1 => EX_AF | 2 => DJNZ | 3 => JR | _ => JR_cc (cc_tab (y - 4)) end
     | 1 => if q =? 0 then LD16_imm (rp_tab p) else ADD16 (rp_tab p)
     | 2 => if q =? 0
            then match p with 0 => LD_BC_A | 1 => LD_DE_A | 2 => ST16_mem pHL | _ => LD_nn_A end
@@ -71,13 +74,13 @@ Definition decode_main (c : Z) : instr :=
   | 2 => ALU8 (alu_tab y) (r_tab z)
   | _ =>
     match z with
-    | 0 => RET_cc y
+    | 0 => RET_cc (cc_tab y)
     | 1 => if q =? 0 then POP (rp2_tab p)
            else match p with 0 => RET | 1 => EXX | 2 => JP_HL | _ => LD_SP_HL end
-    | 2 => JP_cc y
+    | 2 => JP_cc (cc_tab y)
     | 3 => match y with 0 => JP | 1 => PREFIX_CB | 2 => OUT_n_A | 3 => IN_A_n
                       | 4 => EX_SP_HL | 5 => EX_DE_HL | 6 => DI | _ => EI end
-    | 4 => CALL_cc y
+    | 4 => CALL_cc (cc_tab y)
     | 5 => if q =? 0 then PUSH (rp2_tab p)
            else match p with 0 => CALL | 1 => PREFIX_DD | 2 => PREFIX_ED | _ => PREFIX_FD end
     | 6 => ALU8 (alu_tab y) Imm
